@@ -78,6 +78,21 @@ def main():
               "  replay in a fresh interpreter are reported as notes as long as another instance replays exactly.",
               "  C11-r2B (off-by-one that also makes width 1 loop forever): the entropy seam now refuses more than 4 096",
               "  draws per session and the check reports `sampler-does-not-terminate` instead of hanging.",
+              "* round 3 (`*-r3A/B`; sub-agents told the mechanisms of rounds 1-2): C05-r3A/B (a subgroup-membership memo",
+              "  shared by all integer groups; a one-slot decode memo written before validation) led to elements of other",
+              "  groups re-encoded at the victim's width and to strings offered twice in a row; C11-r3A (fallback to a",
+              "  biased draw after 128 re-draws) led to the *deep re-draw* sweep (all answers after k = 2..300 rejected",
+              "  ones); C11-r3B / C07-r3B (a refused second start() re-draws the scalar) led to refused-start accounting;",
+              "  C02-r3A (identities stored joined by NUL) to separator-joined identity pairs, C02-r3B / C03-r3B (`seed or",
+              "  default`) to empty custom seeds and to treating a refused parameter-set construction as an outcome, not",
+              "  a harness error; C01-r3B to a neighbour session of the other flavour in C01's process-restart runs;",
+              "  C09-r3A to exchanged M/N seeds; C16-r3A/B (an errno-style status global in the Ed25519 decoder; a one-slot",
+              "  format memo with incomplete locking) to site-targeted pre-emption and to cooperative locks for the library",
+              "  (it is imported with a proxy `threading` module, so a thread blocking on a lock hands the baton on).",
+              "* round-3 change C07-r3A (`_started` set only when start() succeeds, so a start() after a start() whose",
+              "  entropy function raised returns the one and only message) was **not kept**: the statement bounds the",
+              "  number of messages returned (at most one) and fixes the error only for calls after a message was",
+              "  returned; C07 stays at exit 0 on it, as it should.",
               "* round-2 change C03-r2B (`unbiased_randrange` shifting instead of masking, changing which x a given",
               "  entropy stream yields on custom groups with non-byte-aligned q) was **not kept**: it stays an exact",
               "  rejection sampler and the message is still x*G + w*M for the x the node reports, so it breaks neither C03",
